@@ -7,6 +7,7 @@ import SwcVerif.Model.Sort
 import SwcVerif.Model.Dsu
 import SwcVerif.Model.Subtree
 import SwcVerif.Model.Asc
+import SwcVerif.Model.Redirect
 
 def dispatch (op : String) (args : List String) : String :=
   match op with
@@ -23,6 +24,7 @@ def dispatch (op : String) (args : List String) : String :=
   | "hascyclic" | "bifurcate" | "singleroot" | "getdsu" | "somas" | "nearest" => Dsu.handleCheck op args
   | "subtree" | "tosub" | "subtopo" | "cutenter" | "cutdepth" | "cutleave" | "cuttype" | "cutorder" | "cuttip" => Sub.handle op args
   | "asc" | "asclex" => Asc.handle op args
+  | "redirect" | "cat" => Redir.handle op args
   | "swcline" => SwcText.handleLine args
   | "swcread" => SwcText.handleRead args
   | "swcwrite" => SwcText.handleWrite args
